@@ -21,7 +21,7 @@ fn run_one(sc: scen::Scenario, next_id: i64) -> (Vec<Value>, Value, Vec<Value>, 
             let ev = std::mem::take(&mut r.sink.borrow_mut().ev);
             let defs = std::mem::take(&mut r.sink.borrow_mut().intern.defs);
             let nid = r.sink.borrow().intern.next_id;
-            let summ = json!({"name": name, "events": ev.len(), "stuck": r.stuck, "panicked": r.panicked,
+            let summ = json!({"name": name, "events": ev.len(), "stuck": r.stuck, "panicked": r.panicked, "probe_mismatch": r.probe_mismatch,
                 "notes": r.outcome, "max_conc": r.max_conc,
                 "sched": r.schedules.iter().map(|s| s.iter().map(|c| c.to_json()).collect::<Vec<_>>()).collect::<Vec<_>>(),
                 "reqs": r.world.borrow().reqs.len(), "faults": r.world.borrow().faults_injected,
@@ -132,7 +132,7 @@ fn run_scenarios(inp: &str, out: &str) -> i32 {
             let r = std::panic::catch_unwind(std::panic::AssertUnwindSafe(|| run_one(try_sc, next_id)));
             swept += 1;
             if let Ok((_, summ, _, _)) = &r {
-                if summ["stuck"] == true || summ["panicked"] == true {
+                if summ["stuck"] == true || summ["panicked"] == true || summ["probe_mismatch"] == true {
                     sc = alt;
                     hit = true;
                     break;
